@@ -13,7 +13,7 @@ Every path evaluates the query TWICE against the same database object, first wit
     and the second evaluation is not influenced by the first (same lookups, same order).
 Counterexamples are replayed with real phrases of the shipped database on the native builds.
 """
-import z3, sys, random, itertools
+import z3, sys, random, itertools, os
 from fractions import Fraction
 import harness, rt, qrun
 from mirsym import *
@@ -53,8 +53,14 @@ def jobs(tier, seed, report):
     report.outside = ['that tantivy\'s Db::lookup(&self) is a pure function of the phrase (environment contract of the stub; the check reports anything eval does to the database other than calling lookup as unsupported)', 'longer queries']
     report.assumptions = ['Db::lookup stub: fixed function of the phrase', 'syntree model, literal cut (C07)']
     report.models_used = ['num', 'core', 'coll', 'strings', 'tree']
-    report.required_witnesses = ['same-results', 'descriptions-match-lookups', 'nothing-described-when-off', 'same-phrase-twice', 'lookup-failure-reported', 'sentence-phrase']
-    return [{'name': f'tpl-{k}', 'tpl': k} for k in ts]
+    report.required_witnesses = ['same-results', 'descriptions-match-lookups', 'nothing-described-when-off', 'same-phrase-twice', 'lookup-failure-reported', 'sentence-phrase', 'real-lookup-body', 'isolated-second-query']
+    js = [{'name': f'tpl-{k}', 'tpl': k} for k in ts]
+    # the same with the crate's OWN Db (built by Db::open_inner(true) from MIR) and its own Db::lookup body; only tantivy's
+    # search is a stub (a fixed function of the query text): catches state kept inside the database object
+    for k in ('w-same', 'w-w', 'ww-w', 'w-l-w'): js.append({'name': f'realdb-{k}', 'tpl': k, 'realdb': True})
+    for a, b in (('alpha beta', 'alphabeta'), ('alphabeta', 'alpha beta'), ('alpha beta', 'ALPHA BETA'), ('alpha', 'alpha  beta'), ('alpha beta', 'beta alpha'), ('alpha', 'alpha')):
+        js.append({'name': f'isolation-{a}|{b}', 'seq': [a, b], 'realdb': True})
+    return js
 
 def make_stub(I):
     facts = I.path_state.setdefault('facts', {})
@@ -78,13 +84,87 @@ def make_stub(I):
         return ok(some(VEnum('db::Match', 'Constant', [const])))
     return stub
 
+_tv = False
+def install_tantivy(I):
+    """stubs for what Db::lookup asks of tantivy: the search result is a fixed function of the query text"""
+    global _tv
+    if _tv: return
+    _tv = True
+    import re as _re, glob as _glob
+    from models import M as MODELS
+    from props import c15
+    c15.install(I)
+    # layout of tantivy::schema::Value (the body matches on Value::Bytes): read from the pinned dependency's source
+    try:
+        src = open(sorted(_glob.glob(os.path.expanduser('~/.cargo/registry/src/*/tantivy-0.19.2/src/schema/value.rs')))[0]).read()
+        body = src[src.index('pub enum Value {'):]; body = body[:body.index('\n}')]
+        vs = _re.findall(r'^\s{4}(\w+)\(', body, _re.M)
+        I.enums['Value'] = {v: i for i, v in enumerate(vs)}
+    except Exception:
+        I.enums['Value'] = {v: i for i, v in enumerate(['Str', 'PreTokStr', 'U64', 'I64', 'F64', 'Bool', 'Date', 'Facet', 'Bytes', 'JsonObject', 'IpAddr'])}
+    def M(pat):
+        def deco(fn): MODELS.insert(0, (_re.compile(pat), fn)); return fn
+        return deco
+    def outcome(I, text):
+        facts = I.path_state.setdefault('facts', {})
+        if text not in facts:
+            c = I.fresh_int('outcome'); I.assume(z3.And(c >= 0, c <= 3))
+            facts[text] = (I.concretize(c, what='lookup outcome'), I.fresh_real('fact'))
+        return facts[text]
+    @M(r'^(?:tantivy::)?IndexReader::searcher$')
+    def searcher(I, m, a, dt): return VObj('searcher')
+    @M(r'^(?:tantivy::query::)?QueryParser::for_index$')
+    def for_index(I, m, a, dt): return VObj('qparser')
+    @M(r'^(?:tantivy::query::)?QueryParser::parse_query$')
+    def parse_query(I, m, a, dt):
+        text = gs(I, a[1]).text(); k, v = outcome(I, text)
+        log = I.path_state.setdefault('log', [])
+        if k == 0:
+            log.append((text, 'err')); return err(VObj('queryparsererror'))
+        return ok(VObj('tquery', text=text))
+    @M(r'^(?:tantivy::collector::)?TopDocs::with_limit$')
+    def with_limit(I, m, a, dt): return VObj('topdocs')
+    @M(r'^(?:tantivy::)?Searcher::search::<.*>$')
+    def search(I, m, a, dt):
+        q = deref(I, a[1]); k, v = outcome(I, q.text)
+        log = I.path_state.setdefault('log', [])
+        if k == 1:
+            log.append((q.text, 'none')); return ok(coll.vec([]))
+        log.append((q.text, 'found', v, k))
+        return ok(coll.vec([VTuple([VFloat('score'), VObj('docaddr', text=q.text)])]))
+    @M(r'^(?:tantivy::)?Searcher::doc$')
+    def doc(I, m, a, dt): return ok(VObj('tdoc', text=a[1].text))
+    @M(r'^(?:tantivy::)?Document::get_first$')
+    def get_first(I, m, a, dt):
+        d = deref(I, a[0]); return some(VRef(Cell(VEnum('tantivy::schema::Value', 'Bytes', [VObj('cbor_of', text=d.text)])), []))
+    @M(r'^<(?:std::vec::)?Vec<u8> as (?:std::ops::)?Deref>::deref$')
+    def vecu8_deref(I, m, a, dt): return a[0]
+    @M(r"^serde_cbor::from_slice::<'_, (?:db::)?Constant>$")
+    def from_slice(I, m, a, dt):
+        b = deref(I, a[0]); k, v = outcome(I, b.text)
+        unit = rt.compound(I, [('Meter', 1, 0)] if k == 3 else [])
+        return ok(VStruct('db::Constant', [none(), coll.vec([]), StrS.from_text('fact ' + b.text), rt.rational(v), unit]))
+    I.model_cache.clear()
+
+def real_db(I):
+    """the crate's own database object: Db::open_inner(true) executed from MIR against the environment stubs of C15"""
+    I.path_state['env'] = {'disk': {'meta': 'absent', 'index': 'absent'}, 'trace': [], 'broken': [], 'k': 0, 'crash_at': None, 'start': 0, 'outcomes': [], 'crashes': [], 'version': '0'}
+    OPEN = rt.find_fn(I, 'open_inner', contains='db')
+    r = I.run_body(OPEN, [VBool(True)])
+    if r.variant != 'Ok': raise PathEnd('panic', 'Db::in_memory failed in the model')
+    return VRef(Cell(r.items[0]), [])
+
 def run_job(job, res, prefixes, budget, deadline):
     I = harness.interp_for('dev', {'pow_bound': 40})
     qrun.install(I)
+    if job.get('realdb'): install_tantivy(I)
+    if 'seq' in job: return isolation_job(I, job, res, prefixes, budget, deadline)
     tpl = el.Template(templates('thorough')[job['tpl']], name=job['tpl'])
     def entry(I):
         s, info = el.build(I, tpl, exp_bound=2)
         I.path_state.update({'s': s, 'info': info, 'leaves': {span: info['leaves'][li][0] for span, li in info['leafspan'].items()}, 'lookup': make_stub(I)})
+        if job.get('realdb'):
+            I.path_state['real_lookup'] = True; I.path_state['dbref'] = real_db(I)
         runs = []
         for describe in (False, True):
             I.path_state['log'] = []
@@ -150,8 +230,46 @@ def run_job(job, res, prefixes, budget, deadline):
         else: res.witness('descriptions-match-lookups')
         if len(found) != len({t[0] for t in found}): res.witness('same-phrase-twice')
         if any(' ' in t[0] for t in found): res.witness('sentence-phrase')
+        if job.get('realdb'): res.witness('real-lookup-body')
         if len(res['samples']) < 5 and len(found) >= 2:
             res['samples'].append({'template': job['tpl'], 'operators': ''.join(t[1] for t in toks if t[0] == 'op'), 'lookups_in_call_order': [t[0] for t in log1], 'described': [g[0] for g in got]})
+    harness.explore(I, res, entry, on_path, prefixes, budget, deadline)
+
+def isolation_job(I, job, res, prefixes, budget, deadline):
+    """query A then query B against ONE database object; B alone against a fresh one: B's result must be the same"""
+    a_text, b_text = job['seq']
+    def entry(I):
+        I.path_state['real_lookup'] = True
+        db1 = real_db(I)
+        outs = []
+        for text, db in ((a_text, db1), (b_text, db1), (b_text, None)):
+            I.path_state['dbref'] = db if db is not None else real_db(I)
+            I.path_state['log'] = []
+            r = qrun.run_query(I, StrS.from_text(text))
+            outs.append((r, list(I.path_state['log'])))
+        return outs
+    def on_path(I, out, res):
+        kind, outs = out
+        if kind not in ('ok', 'panic'): return
+        res['obligations'] += 1
+        case = {'op': 'query_sequence', 'queries': [REAL.get(a_text, a_text), REAL.get(b_text, b_text)], 'model_queries': [a_text, b_text]}
+        if kind == 'panic': res['candidates'].append({'role': 'panic', 'case': case, 'detail': str(outs)}); return
+        (ra, la), (rb, lb), (rf, lf) = outs
+        def summary(r):
+            o = []
+            for x in r.results:
+                if x.variant == 'Err': o.append(('err', qrun.err_kind(x)))
+                else: o.append(('ok', mnum.rat_arg(I, x.items[0].items[0])))
+            return o
+        sb, sf = summary(rb), summary(rf)
+        if [x[0] for x in sb] != [x[0] for x in sf] or [(t[0], t[1]) for t in lb] != [(t[0], t[1]) for t in lf]:
+            res['candidates'].append({'role': 'earlier-query-changes-later-one', 'case': case, 'detail': f'after {a_text!r}: {sb} / lookups {lb}; alone: {sf} / {lf}'}); return
+        res['discharged'] += 1
+        diffs = [znot(mnum.req(x[1], y[1])) for x, y in zip(sb, sf) if x[0] == 'ok']
+        if diffs:
+            st = res.obligation(I, zor(*diffs), 'the second query has the value it has in isolation', lambda m: res['candidates'].append({'role': 'earlier-query-changes-later-one', 'case': case, 'detail': f'after {a_text!r} the query {b_text!r} evaluates differently'}))
+            if st == 'unsat': res.witness('isolated-second-query')
+        else: res.witness('isolated-second-query')
     harness.explore(I, res, entry, on_path, prefixes, budget, deadline)
 
 # ---------------------------------------------------------------- replay
@@ -159,6 +277,17 @@ def confirm(c, outs):
     """realised with real phrases: the query is evaluated with and without descriptions on the native builds"""
     import replay_client
     case = c['case']
+    if case.get('op') == 'query_sequence':
+        # realised with pairs of real phrases that differ only in blanks / case / word boundaries, both orders
+        pairs = [('population oman', 'population o man'), ('population o man', 'population oman'), ('g0', 'g 0'), ('g 0', 'g0'), ('population finland', 'populationfinland'),
+                 ('population finland', 'POPULATION FINLAND'), ('population finland', 'finland population'), ('population finland', 'population  finland'), ('pi', 'p i')]
+        outs = replay_client.run_profile([{'op': 'query_sequence', 'queries': list(p)} for p in pairs], 'dev', timeout=300)
+        for p, o in zip(pairs, outs):
+            if 'panic' in o: return True, f'panic on {p}'
+            r = o.get('ok')
+            if r and r['second_after_first'] != r['second_alone']:
+                return True, f'after {p[0]!r} the query {p[1]!r} gives {r["second_after_first"]}, alone it gives {r["second_alone"]}'
+        return False, 'no realisation with real phrases shows an influence'
     text = case['text']
     for k, v in REAL.items(): text = text.replace(k, v)
     a = replay_client.run_cases([{'op': 'query', 'text': text, 'describe': False}], profiles=REPLAY_PROFILES)[0]
